@@ -19,6 +19,7 @@ import (
 
 	"github.com/Cloud-Foundations/keymaster/lib/instrumentedwriter"
 	"github.com/Cloud-Foundations/keymaster/lib/webapi/v0/proto"
+	"github.com/pquerna/otp"
 	"github.com/pquerna/otp/totp"
 )
 
@@ -355,6 +356,19 @@ const minSecsBetweenTOTPValidations = 2
 const numHoursForLocalTOTPRateLimitReset = 24
 const numFailedTOTPChecksForTimeoutIncrease = 5
 
+// totpMatchedCounter returns the time step whose code equals passcode, among
+// counter and its two neighbours (the clock skew totp.Validate tolerates).
+func totpMatchedCounter(passcode string, secret string, counter int64, period uint) (int64, bool) {
+	opts := totp.ValidateOpts{Period: period, Skew: 0, Digits: otp.DigitsSix, Algorithm: otp.AlgorithmSHA1}
+	for _, step := range []int64{counter, counter - 1, counter + 1} {
+		valid, err := totp.ValidateCustom(passcode, secret, time.Unix(step*int64(period), 0), opts)
+		if err == nil && valid {
+			return step, true
+		}
+	}
+	return 0, false
+}
+
 // This function is the one actually validating the TOTP values, returns err non nil
 // if there is a problem with the internal state. Returns true if the previous OTP success
 // for this user is NOT on this period AND one of the otp values matches the one of the user's
@@ -415,12 +429,16 @@ func (state *RuntimeState) validateUserTOTP(username string, OTPValue int, t tim
 			return false, err
 		}
 
-		valid := totp.Validate(OTPString, string(clearTextKey))
-		if !valid {
+		// A code is good for one login only: the step it belongs to must be later
+		// than the step of the last accepted code. Comparing only the current step
+		// let a code be accepted again in the next step (codes of the adjacent
+		// steps are valid too).
+		matchedCounter, valid := totpMatchedCounter(OTPString, string(clearTextKey), counter, defaultPeriod)
+		if !valid || matchedCounter <= profile.LastSuccessfullTOTPCounter {
 			continue
 		}
 		if !fromCache {
-			profile.LastSuccessfullTOTPCounter = counter
+			profile.LastSuccessfullTOTPCounter = matchedCounter
 			err = state.SaveUserProfile(username, profile)
 			if err != nil {
 				logger.Printf("Saving profile error: %v", err)
